@@ -154,6 +154,12 @@ func RunC03(c *Ctx) {
 			wantRefs, wantLogs := gen.Overlay(ts.Tables, view == "raw")
 			checkMergedView(c, r, props, idx, ts, view, m, wantRefs, wantLogs, shadow, setHash)
 		}
+		if idx%6 == 2 {
+			mergedFailingReads(c, idx, ts, b)
+		}
+		if idx%6 == 4 && len(ts.Tables) >= 2 {
+			nestedViews(c, idx, ts, b, shadow, setHash)
+		}
 		r.Count("table_sets", 1)
 		r.Max("max_tables", len(ts.Tables))
 		r.SetAdd("multiplicity", fmt.Sprintf("tables=%d shadow=%d", len(ts.Tables), shadow))
@@ -361,8 +367,20 @@ func GenOidTable(seed int64, idx int) *gen.Table {
 	}
 	n := []int{3, 30, 150, 600, 2500}[r.Intn(5)]
 	poolN := []int{1, 2, 5, 20, 200}[r.Intn(5)]
+	style := gen.NameStyle(r.Intn(5))
+	if idx%9 == 7 {
+		// ref blocks less than 128 bytes apart (unaligned, tiny blocks) and one or two hot
+		// ids referenced from hundreds of them: position lists with one-byte deltas that
+		// still fit an obj block, and lists that do not
+		c.SHA256, hs = false, 20
+		c.Unaligned, c.SkipIndexObjects = true, false
+		c.BlockSize = []uint32{96, 128, 160}[r.Intn(3)]
+		n = 300 + r.Intn(500)
+		poolN = 1 + r.Intn(2)
+		style = gen.NamesNumbered
+	}
 	pool := r.NewPool(hs, poolN)
-	names := r.Names(n, gen.NameStyle(r.Intn(5)))
+	names := r.Names(n, style)
 	delP := []float64{0, 0.1}[r.Intn(2)]
 	for _, nm := range names {
 		ref := r.GenRef(nm, c.Min+uint64(r.Intn(int(c.Max-c.Min)+1)), hs, pool, delP)
@@ -580,4 +598,190 @@ func layoutOf(data []byte) layoutInfo {
 		}
 	}
 	return li
+}
+
+// countingSource is a block source whose reads are counted on a counter shared by all tables
+// of a set; the read with number *failAt fails.
+type countingSource struct {
+	reftable.ByteBlockSource
+	n, failAt *int
+	failed    *bool
+}
+
+func (f *countingSource) ReadBlock(off uint64, size int) ([]byte, error) {
+	*f.n++
+	if *f.failAt > 0 && *f.n == *f.failAt {
+		*f.failed = true
+		return nil, errFlakyRead
+	}
+	return f.ByteBlockSource.ReadBlock(off, size)
+}
+
+// mergedFailingReads: a full ref scan and a full log scan through the raw merged view while
+// one block read of one of the tables fails - every read in turn (every second / third one
+// for long scans). The scan must report an error or return exactly the undisturbed result:
+// a sub-iterator that fails while it is being advanced (also past a shadowed duplicate) must
+// not silently drop the rest of its table. Compaction reads its inputs through this view.
+func mergedFailingReads(c *Ctx, idx int, ts *gen.TableSet, b *builtSet) {
+	r := c.Rep
+	hash := reftable.SHA1ID
+	if ts.Tables[0].Cfg.SHA256 {
+		hash = reftable.SHA256ID
+	}
+	open := func() (m *reftable.Merged, n, failAt *int, failed *bool) {
+		n, failAt, failed = new(int), new(int), new(bool)
+		var tabs []reftable.Table
+		for ti, d := range b.datas {
+			rd, err := reftable.NewReader(&countingSource{ByteBlockSource: reftable.ByteBlockSource{Source: d}, n: n, failAt: failAt, failed: failed}, fmt.Sprintf("t%d", ti))
+			if err != nil {
+				return nil, nil, nil, nil
+			}
+			tabs = append(tabs, rd)
+		}
+		m, err := reftable.NewMerged(tabs, hash)
+		if err != nil {
+			return nil, nil, nil, nil
+		}
+		*n = 0
+		return m, n, failAt, failed
+	}
+	for _, kind := range []string{"refs", "logs"} {
+		scan := func(m *reftable.Merged) (string, error) {
+			var out string
+			err := rtx.Safe(func() error {
+				if kind == "refs" {
+					it, err := m.SeekRef("")
+					if err != nil {
+						return err
+					}
+					rs, err := rtx.DrainRefs(it, 0)
+					out = gen.Dump(rs, nil)
+					return err
+				}
+				it, err := m.SeekLog("", math.MaxUint64)
+				if err != nil {
+					return err
+				}
+				ls, err := rtx.DrainLogs(it, 0)
+				out = gen.Dump(nil, ls)
+				return err
+			})
+			return out, err
+		}
+		m, n, _, _ := open()
+		if m == nil {
+			return
+		}
+		want, err := scan(m)
+		if err != nil {
+			return
+		}
+		total := *n
+		step := 1 + total/150
+		for k := 1; k <= total; k += step {
+			m, _, failAt, failed := open()
+			if m == nil {
+				return
+			}
+			*failAt = k
+			got, err := scan(m)
+			r.Evaluations++
+			r.Count("merged_scans_with_failing_read", 1)
+			if !*failed {
+				continue
+			}
+			cs := setCase{Prop: c.Prop, Seed: c.Seed, Index: idx, Gen: "GenTableSet", Note: ts.Note, View: "raw", Detail: fmt.Sprintf("%s scan, block read #%d of %d fails", kind, k, total)}
+			switch {
+			case err != nil && rtx.IsPanic(err):
+				r.Violate([]string{"C03"}, "merged-scan-panics-after-failed-read|"+PanicSig(err), fmt.Sprintf("%s scan of the merged view with block read #%d of %d failing panicked: %s", kind, k, total, PanicDetail(err)), cs)
+				return
+			case err == nil && got != want:
+				r.Violate([]string{"C03"}, "read-error-turned-into-wrong-merged-result|"+kind, fmt.Sprintf("%s scan of the merged view with block read #%d of %d failing returned no error but a different result: %s", kind, k, total, gen.DiffLines(want, got)), cs)
+				return
+			case err != nil:
+				r.Nontrivial(rep.Hash("mfr", fmt.Sprint(c.Seed), fmt.Sprint(idx), kind, fmt.Sprint(k)))
+			}
+		}
+	}
+}
+
+// nestedViews: a Merged is a Table, so views nest. (a) a raw view over [raw view of the
+// first j tables, the remaining tables] must equal the flat raw overlay; (b) a raw view over
+// [the STACK view of the first j tables, the remaining tables]: the inner view hides its
+// deletion records and what they delete, the outer one merges what is left with the newer
+// tables and shows their deletion records.
+func nestedViews(c *Ctx, idx int, ts *gen.TableSet, b *builtSet, shadow int, setHash string) {
+	r := c.Rep
+	hash := reftable.SHA1ID
+	if ts.Tables[0].Cfg.SHA256 {
+		hash = reftable.SHA256ID
+	}
+	j := 1 + idx/6%(len(ts.Tables)-1)
+	var rest []reftable.Table
+	for _, rd := range b.readers[j:] {
+		rest = append(rest, rd)
+	}
+	var innerTabs []reftable.Table
+	for _, rd := range b.readers[:j] {
+		innerTabs = append(innerTabs, rd)
+	}
+	mk := func(view, d string) setCase {
+		return setCase{Prop: c.Prop, Seed: c.Seed, Index: idx, Gen: "GenTableSet", Note: ts.Note, View: view, Detail: d}
+	}
+	// (a)
+	var outer *reftable.Merged
+	err := rtx.Safe(func() error {
+		inner, err := reftable.NewMerged(innerTabs, hash)
+		if err != nil {
+			return err
+		}
+		outer, err = reftable.NewMerged(append([]reftable.Table{inner}, rest...), hash)
+		return err
+	})
+	if err != nil {
+		r.Violate([]string{"C03"}, "nested-raw|newmerged-error", "NewMerged over a raw merged view and newer tables failed: "+err.Error()+PanicDetail(err), mk("nested-raw", ""))
+		return
+	}
+	wr, wl := gen.Overlay(ts.Tables, true)
+	checkMergedView(c, r, []string{"C03"}, idx, ts, "nested-raw", outer, wr, wl, shadow, setHash)
+	// (b) stack over the first j tables
+	dir := c.TempDir(fmt.Sprintf("nest%d", idx))
+	defer os.RemoveAll(dir)
+	var names []string
+	for ti := 0; ti < j; ti++ {
+		t := ts.Tables[ti]
+		name := fmt.Sprintf("0x%012x-0x%012x-%08x.ref", t.Cfg.Min, t.Cfg.Max, ti)
+		if err := os.WriteFile(filepath.Join(dir, name), b.datas[ti], 0644); err != nil {
+			panic(err)
+		}
+		names = append(names, name)
+	}
+	if err := os.WriteFile(filepath.Join(dir, "tables.list"), []byte(strings.Join(names, "\n")), 0644); err != nil {
+		panic(err)
+	}
+	var st *reftable.Stack
+	err = rtx.Safe(func() error {
+		var e error
+		st, e = reftable.NewStack(dir, rtx.Config(ts.Tables[0].Cfg))
+		return e
+	})
+	if err != nil {
+		return // the full-set stack view is judged elsewhere
+	}
+	defer st.Close()
+	err = rtx.Safe(func() error {
+		var e error
+		outer, e = reftable.NewMerged(append([]reftable.Table{st.Merged()}, rest...), hash)
+		return e
+	})
+	if err != nil {
+		r.Violate([]string{"C03"}, "nested-stack|newmerged-error", "NewMerged over a stack view and newer tables failed: "+err.Error()+PanicDetail(err), mk("nested-stack", ""))
+		return
+	}
+	ir, il := gen.Overlay(ts.Tables[:j], false)
+	pseudo := &gen.Table{Cfg: ts.Tables[0].Cfg, Refs: ir, Logs: il}
+	pseudo.Cfg.ExactLog = true // already normalised
+	wr, wl = gen.Overlay(append([]*gen.Table{pseudo}, ts.Tables[j:]...), true)
+	checkMergedView(c, r, []string{"C03"}, idx, ts, "nested-stack", outer, wr, wl, shadow, setHash)
+	r.Count("nested_view_sets", 1)
 }
